@@ -272,6 +272,10 @@ def run(ctx):
             ck.ob('C18-b', 'R8.constants', 'sha1.c', 'SHA1 round constants', ks <= consts,
                   'SHA1_Transform uses the four standard round constants' if ks <= consts else
                   'SHA1_Transform: missing %s' % sorted(hex(x) for x in ks - consts), st.file, st.line, config=config)
+            # ---- h  a backend with mutable static storage is not re-entrant: digests go wrong under concurrent use
+            from . import c19
+            nst = c19.static_inventory(ck, prog, config, 'C18-h', unit_filter=lambda u: '/hash/bundled/' in u or '/hash/openssl/' in u)
+            ck.min_instances('objects with static storage in the hash backends', nst, 4)
             # ---- e  finalisation layout, for every possible number of buffered bytes
             from ..rules.layout import LayoutInterp, Ptr, check_padding, length_bytes
             SINKS = {'SHA1_Transform': (1, 64, None), 'sha256_transf': (1, 64, 2), 'sha512_transf': (1, 128, 2)}
